@@ -774,10 +774,12 @@ class Circuit:
         if self.is_current_task():
             raise EdzedInvalidState("Cannot await the simulator task from the simulator task.")
         self.abort(asyncio.CancelledError('shutdown'))
-        try:
-            await self._simtask
-        except asyncio.CancelledError:
-            pass
+        # Do not await the simulation task directly: a cancellation of the caller
+        # (e.g. a supporting task cancelled by run()) would be propagated to the
+        # simulation task, interrupt its cleanup and replace the simulator's error.
+        await asyncio.wait([self._simtask])
+        if not self._simtask.cancelled() and (exc := self._simtask.exception()) is not None:
+            raise exc
 
 
 class _TerminatingSignal:
